@@ -125,6 +125,14 @@ def run(seed=0, tier='quick', hints=None, broken=False):
             evals += 1
             seen.add((c['cls'], shape))
     # CropAndPad, every axis pattern once (volumes large enough for the crops)
+    # RandomRotate90: every plane x every number of quarter turns once per run (pinned), on frames with three different extents
+    for ax in S.PLANES:
+        for k_ in range(4):
+            shape = tuple(rng.sample([4, 5, 6, 7, 9], 3))
+            case = {'shape': list(shape), 'bboxes': S.random_boxes(rng, shape), 'seed': R.pick_seed(rng)}
+            check_lattice('RandomRotate90', [S.L('RandomRotate90', pin={'factor': k_, 'axes': ax}, axes=ax)], case, viol)
+            evals += 1
+            seen.add(('RandomRotate90-sweep', ax, k_))
     for rep in range(1 if tier == 'quick' else 12):
         for c in S.crop_and_pad_sweep(rng):
             shape = tuple(rng.sample([5, 6, 7, 8, 9, 10], 3))
